@@ -37,6 +37,17 @@ def units():
                             "decreases": "2 * (len - indx) + (pms->samplecount >= 9 ? 1 : 0)"}]},
                   "kind": "enumerated(samples per block 9, channels=%d)" % ch,
                   "trusted": ["decode_block_c: effect of the block decoders on the reader state (frame contract)", "E1 memcpy / memset models for symbolic lengths (ranges asserted)"]})
+    U.append({"name": "gsm610.gsm610_read_block", "props": ["C05", "C15", "C06"], "harness": "ima_read.harness.c", "entry": "h_ima_read_block", "enforce": "gsm610_read_block",
+              "function": "gsm610.c:gsm610_read_block", "defines": ["-DCH=1", "-DLAYOUT_GSM"], "timeout": 900, "backend": "kissat", "cbmc_flags": ["--object-bits", "9"],
+              "loops": {"gsm610_read_block": [{"loop_id": 0, "assigns_locals": True,
+                        "assigns": "pgsm610->blockcount, pgsm610->samplecount, g_decode_calls, g_decode_failed, g_zero_filled, g_zero_from, psf->error, __CPROVER_object_whole (ptr), __CPROVER_object_upto ((char *) pgsm610->samples, 640)",
+                        "invariants": "0 <= indx && indx <= len && total == indx && 0 <= pgsm610->samplecount && pgsm610->samplecount <= 9 && 0 <= pgsm610->blockcount && pgsm610->blockcount <= (1 << 24) "
+                                      "&& pgsm610->samplesperblock == 9 && pgsm610->blocks == vin_blocks "
+                                      "&& 0 <= g_decode_calls && g_decode_calls <= (1 << 22) && g_zero_filled == 0 && g_decode_failed == 0 "
+                                      "&& (long) indx == (long) g_decode_calls * 9 + pgsm610->samplecount - vin_sc",
+                        "decreases": "2 * (len - indx) + (pgsm610->samplecount >= 9 ? 1 : 0)"}]},
+              "kind": "enumerated(samples per block 9; mono)",
+              "trusted": ["decode_block_c: effect of the block decoders on the reader state (frame contract)", "E1 memcpy / memset models for symbolic lengths (ranges asserted)"]})
     for lay, fn, cfile in (("IMA", "ima_write_block", "ima_adpcm.c"), ("MS", "msadpcm_write_block", "ms_adpcm.c")):
         for ch in (1, 2):
             pv = "pima" if lay == "IMA" else "pms"
@@ -51,6 +62,15 @@ def units():
                       "kind": "enumerated(samples per block 9, channels=%d)" % ch,
                       "trusted": ["encode_block_c: the block encoder consumes the full block and resets the fill level (frame contract; the encoder itself has no unit)",
                                   "E1 memcpy model for symbolic lengths (ranges and placement asserted)"]})
+    U.append({"name": "gsm610.gsm610_write_block", "props": ["C07", "C05", "C01"], "harness": "ima_write.harness.c", "entry": "h_ima_write_block", "enforce": "gsm610_write_block",
+              "function": "gsm610.c:gsm610_write_block", "defines": ["-DCH=1", "-DLAYOUT_GSM"], "timeout": 900, "backend": "kissat", "cbmc_flags": ["--object-bits", "9"],
+              "loops": {"gsm610_write_block": [{"loop_id": 0, "assigns_locals": True,
+                        "assigns": "pgsm610->samplecount, pgsm610->blockcount, g_enc_calls, g_consumed, psf->error, __CPROVER_object_upto ((char *) pgsm610->samples, 640)",
+                        "invariants": "0 <= indx && indx <= len && total == indx && g_consumed == indx && 0 <= pgsm610->samplecount && pgsm610->samplecount < 9 && pgsm610->samplesperblock == 9 "
+                                      "&& 0 <= g_enc_calls && g_enc_calls <= (1 << 22) && (long) pgsm610->samplecount == (long) vin_sc + indx - (long) g_enc_calls * 9",
+                        "decreases": "len - indx"}]},
+              "kind": "enumerated(samples per block 9; mono)",
+              "trusted": ["encode_block_c: the block encoder consumes the full block and resets the fill level (frame contract)", "E1 memcpy model for symbolic lengths (ranges and placement asserted)"]})
     for lay, fn, chs in (("PAF", "paf24_seek", (1, 2)), ("SDS", "sds_seek", (1,))):
         for ch in chs:
             U.append({"name": "%s.%s.ch%d" % (lay.lower(), fn, ch), "props": ["C06", "C08"], "harness": "blockseek.harness.c", "entry": "h_blockseek", "enforce": fn,
